@@ -244,6 +244,12 @@ def v4_engine(run):
             if isinstance(x, ast.Subscript)]
     cm = {x.slice.value for x in subs if isinstance(x.slice, ast.Constant)
           and x.slice.value in ("min", "max")}
+    # (`card.get("min")` reads the same entry)
+    cm |= {c.args[0].value for f in cone for c in ast.walk(f.node)
+           if isinstance(c, ast.Call) and isinstance(c.func, ast.Attribute)
+           and c.func.attr == "get" and c.args and
+           isinstance(c.args[0], ast.Constant) and
+           c.args[0].value in ("min", "max")}
     run.check(cm == {"min", "max"}, "V4", fi.qual + "::bounds",
               "bounds read from c_cardinality[name]",
               "bounds read as %s" % sorted(cm), fi.loc(), nontrivial=False)
@@ -256,9 +262,23 @@ def v4_engine(run):
     # the cardinality raises must not be conditional on anything but _card
     # recursion
     rec = cfg.call_nodes("_valid_instance")
-    ok = len(rec) == 2
-    argsets = sorted(unparse(c.args[1]) for nd, c in rec) if ok else []
-    run.check(ok and argsets == ["val", "value"], "V4", fi.qual + "::recursion",
+    argsets = sorted(unparse(c.args[1]) for nd, c in rec)
+    ok = argsets == ["val", "value"]
+    if not ok and len(rec) == 1 and isinstance(rec[0][1].args[1], ast.Name):
+        # one site for both shapes: a loop over `value` or `[value]`
+        v = rec[0][1].args[1].id
+        lps = [lp for lp in cfg.by_kind("foriter")
+               if isinstance(lp.ast.target, ast.Name) and lp.ast.target.id == v
+               and cfg.dominates(lp.id, rec[0][0].id)]
+        if lps:
+            got = {(a.kind, a.text) for a in Origins(cfg).of(lps[-1].ast.iter,
+                                                            lps[-1].id)}
+            ok = bool(got) and got <= {("call", "getattr"),
+                                       ("param", "instance"),
+                                       ("attr", "instance.%s" % v)} | {
+                g for g in got if g[0] == "const"} and any(
+                g[0] != "const" for g in got)
+    run.check(ok, "V4", fi.qual + "::recursion",
               "every list element and every single child is validated",
               "recursion sites: %s" % argsets, fi.loc())
     for nd, c in rec:
